@@ -148,13 +148,31 @@ func execC20(t *testing.T, c *sim.Case) *sim.Result {
 						b.sched.Yield(nil, "h.hold")
 					}
 					lt.holding = false
+					mine := lt.acquiring
 					lt.acquiring = nil
 					g.Release()
 					b.emit(id, "released", 0, 0, "")
 					if op.C >= 2 {
 						b.sched.Yield(nil, "h.rerelease")
+						// "Releasing twice is harmless": stripes of the guard that are
+						// free right now are held by sentinels during the second
+						// Release; it must not unlock them (stripes that another task
+						// holds meanwhile are covered by the latch_lost check).
+						var sentinels []verifhook.TryLocker
+						for _, l := range mine {
+							if l.TryLock() {
+								sentinels = append(sentinels, l)
+							}
+						}
 						g.Release()
-						b.emit(id, "released-again", 0, 0, "")
+						freed := 0
+						for _, l := range sentinels {
+							if l.TryLock() {
+								freed++
+							}
+							l.Unlock()
+						}
+						b.emit(id, "released-again", int64(freed), 0, "")
 					}
 				}
 			})
@@ -210,6 +228,13 @@ func execC20(t *testing.T, c *sim.Case) *sim.Result {
 				if e.kind == "panic" {
 					res.Violate(res.Steps, "sut_panic", nil, "task %d: %s", e.task, e.s)
 				}
+				if e.kind == "released-again" {
+					res.Checks++
+					if e.a > 0 {
+						res.Violate(res.Steps, "double_release_unlocks", nil,
+							"the second Release() of task %d's guard unlocked %d stripe(s) it no longer owned", e.task, e.a)
+					}
+				}
 			}
 			// invariants
 			for i := 0; i < ntasks; i++ {
@@ -221,7 +246,10 @@ func execC20(t *testing.T, c *sim.Case) *sim.Result {
 					if !isLocked(l) {
 						res.Violate(res.Steps, "latch_lost", nil,
 							"task %d holds {%s} but one of its stripes is unlocked (somebody else's Release freed it)", i, tasks[i].spec)
-						tasks[i].acquiring = nil
+						// keep the holder's later Release from unlocking an unlocked mutex
+						for _, l2 := range tasks[i].acquiring {
+							_ = l2.TryLock()
+						}
 						break
 					}
 				}
